@@ -1,3 +1,262 @@
+import Cello.Hdr
+import CelloGen.Hdr
 import Driver.Common
-/- driver for engine `hdr` — stub, replaced when the engine is built -/
-def main (_args : List String) : IO Unit := IO.println "O not-implemented"
+/- driver for engine `hdr` (C19): one op per line (syntax: see harness/h_hdr.c); runs the model `Cello.Hdr.step` with the
+   configuration read from the current source (`Config.current`) and prints one `O` line per op — what the C harness
+   must print too. -/
+open Cello.Hdr
+
+def cfg : Config := Config.current
+
+def clsName (c : Nat) : String :=
+  if c = cfg.cStatic then "static" else if c = cfg.cStack then "stack" else if c = cfg.cHeap then "heap"
+  else if c = cfg.cData then "data" else s!"c{c}"
+
+def tyName (t : Option Ty) : String := match t with | some t => t.name | none => "BADMAGIC"
+
+def showScalar : Scalar → String
+  | .int v => s!"i{v}"
+  | .str s => s!"s{s}"
+  | .strFreed => "s!freed"
+  | .raw w => s!"p{w}"
+
+/-- at most 24 items are shown -/
+def capped (l : List String) : String :=
+  ",".intercalate (l.take 24) ++ (if l.length > 24 then s!",..+{l.length - 24}" else "")
+
+def showBody : Body → String
+  | .scalar v => showScalar v
+  | .tuple items => "t[" ++ capped (items.map toString) ++ "]"
+  | .seq k ety es => (match k with | .array => "a" | .list => "l") ++ ety.name ++ "[" ++ capped (es.map (fun e => showScalar e.val)) ++ "]"
+  | .map k kty vty ents => (match k with | .table => "h" | .tree => "m") ++ kty.name ++ "," ++ vty.name ++ "{" ++
+      capped (ents.map (fun e => showScalar e.1.val ++ ":" ++ showScalar e.2.val)) ++ "}"
+  | .ref t => s!"r{t}"
+  | .tyobj t _ => "T" ++ t.name
+  | .destroyed => "!destroyed"
+
+def regName (s : St) (id : Nat) : String :=
+  match s.reg.find? (fun p => p.1 == id) with
+  | some (_, true) => "root"
+  | some (_, false) => "auto"
+  | none => "-"
+
+/-- `ty= cls= reg= sz= cap= v=` of a target in state `s` -/
+def describe (s : St) (t : Target) : String :=
+  match s.get t.id with
+  | none => "gone"
+  | some o =>
+    if !o.live then "ty=- cls=- reg=- live=0 v=-" else
+    match t with
+    | .obj id =>
+      let ty := typeOf cfg o.hdr
+      let sz := match ty with | some t => s.sizeOf t | none => 0
+      s!"ty={tyName ty} cls={clsName o.hdr.alloc} reg={regName s id} live=1 sz={sz} cap={o.cap} v={showBody o.body}"
+    | _ =>
+      match s.elemOf t with
+      | none => "gone"
+      | some e =>
+        let ty := typeOf cfg e.hdr
+        let sz := match ty with | some t => s.sizeOf t | none => 0
+        s!"ty={tyName ty} cls={clsName e.hdr.alloc} reg=- live=1 sz={sz} cap={e.cap} v={showScalar e.val}"
+
+def showOutcome : Outcome → String
+  | .ok => "none"
+  | .raised e => e
+  | .ub => "UB"
+
+def showSeen : Option Seen → String
+  | some (ty, c) => tyName ty ++ "/" ++ clsName c
+  | none => "?"
+
+def parseRoute (w : String) : Option Route :=
+  if w == "new" then some .new else if w == "new_raw" then some .newRaw else if w == "new_root" then some .newRoot
+  else if w == "alloc" then some .alloc else if w == "alloc_raw" then some .allocRaw else if w == "alloc_root" then some .allocRoot
+  else if w == "stack" then some .stack else if w == "static" then some .static else none
+
+def parseTarget (w : String) : Option Target :=
+  match w.splitOn "." with
+  | [a] => a.toNat?.map .obj
+  | [a, b] =>
+    match a.toNat? with
+    | none => none
+    | some id =>
+      if b.startsWith "k" then ((b.drop 1).toString.toNat?).map (.key id)
+      else if b.startsWith "v" then ((b.drop 1).toString.toNat?).map (.val id)
+      else b.toNat?.map (.elem id)
+  | _ => none
+
+def parseText (w : String) : String := if w == "-" then "" else w
+
+def isText (w : String) : Bool := w == "-" || w.toList.all (fun c => c.isAlphanum)
+
+def parseScalar (t : Ty) (w : String) : Option Scalar :=
+  match t with
+  | .int => w.toInt?.map .int
+  | .string => if isText w then some (.str (parseText w)) else none
+  | .rt _ => w.toInt?.map .raw
+  | _ => none
+
+def parseElemTy (w : String) : Option Ty :=
+  match Ty.ofName w with
+  | .int => some .int
+  | .string => some .string
+  | .rt k => some (.rt k)
+  | _ => none
+
+def allSome {α : Type} : List (Option α) → Option (List α)
+  | [] => some []
+  | some x :: r => (allSome r).map (x :: ·)
+  | none :: _ => none
+
+def pairs {α : Type} : List α → Option (List (α × α))
+  | [] => some []
+  | a :: b :: r => (pairs r).map ((a, b) :: ·)
+  | [_] => none
+
+def parseFreeOp (w : String) : Option FreeOp :=
+  if w == "dealloc" then some .dealloc else if w == "dealloc_raw" then some .deallocRaw
+  else if w == "dealloc_root" then some .deallocRoot else if w == "del" then some .del
+  else if w == "del_raw" then some .delRaw else if w == "del_root" then some .delRoot
+  else if w == "destruct" then some .destruct else none
+
+def parseOp (ws : List String) : Option Op :=
+  match ws with
+  | ["int", id, r, v] =>
+    match id.toNat?, parseRoute r, v.toInt? with
+    | some id, some r, some v => some (.make id r (.int v))
+    | _, _, _ => none
+  | ["str", id, r, t] =>
+    match id.toNat?, parseRoute r with
+    | some id, some r => if isText t then some (.make id r (.str (parseText t))) else none
+    | _, _ => none
+  | "tup" :: id :: r :: items =>
+    match id.toNat?, parseRoute r, allSome (items.map String.toNat?) with
+    | some id, some r, some items => some (.make id r (.tuple items))
+    | _, _, _ => none
+  | ["ref", id, r, t] =>
+    match id.toNat?, parseRoute r, t.toNat? with
+    | some id, some r, some t => some (.make id r (.ref t))
+    | _, _, _ => none
+  | kind :: id :: r :: ety :: vals =>
+    if kind == "arr" || kind == "lst" then
+      match id.toNat?, parseRoute r, parseElemTy ety with
+      | some id, some r, some ety =>
+        (allSome (vals.map (parseScalar ety))).map (fun vs => .make id r (.seq (if kind == "arr" then .array else .list) ety vs))
+      | _, _, _ => none
+    else if kind == "tab" || kind == "tre" then
+      match vals with
+      | vty :: rest =>
+        match id.toNat?, parseRoute r, parseElemTy ety, parseElemTy vty, pairs rest with
+        | some id, some r, some kty, some vty, some ps =>
+          (allSome (ps.map (fun p => match parseScalar kty p.1, parseScalar vty p.2 with
+            | some a, some b => some (a, b)
+            | _, _ => none))).map (fun es => .make id r (.map (if kind == "tab" then .table else .tree) kty vty es))
+        | _, _, _, _, _ => none
+      | [] => none
+    else if kind == "rtt" then
+      match id.toNat?, parseRoute r, ety.toNat?, vals with
+      | some id, some r, some k, [size] => size.toNat?.map (fun sz => .make id r (.rtType k sz))
+      | _, _, _, _ => none
+    else if kind == "rto" then
+      match id.toNat?, parseRoute r, ety.toNat?, vals with
+      | some id, some r, some k, [w] => w.toInt?.map (fun w => .make id r (.rtObj k w))
+      | _, _, _, _ => none
+    else if kind == "view" then
+      -- view range a b c  /  view hrange a b c   (id r ety vals = a b c [])
+      none
+    else none
+  | _ => none
+
+def parseView (ws : List String) : Option View :=
+  match ws with
+  | ["slice", id, k] => (match id.toNat?, k.toNat? with | some id, some k => some (.slice id k) | _, _ => none)
+  | ["reverse", id] => id.toNat?.map .reverse
+  | ["zip", a, b] => (match a.toNat?, b.toNat? with | some a, some b => some (.zip a b) | _, _ => none)
+  | ["enumerate", id] => id.toNat?.map .enumerate
+  | ["filter", id] => id.toNat?.map .filter
+  | ["map", id] => id.toNat?.map .map
+  | ["range", a, b, c] => (match a.toInt?, b.toInt?, c.toInt? with | some a, some b, some c => some (.rangeStack a b c) | _, _, _ => none)
+  | ["hrange", a, b, c] => (match a.toInt?, b.toInt?, c.toInt? with | some a, some b, some c => some (.rangeHeap a b c) | _, _, _ => none)
+  | _ => none
+
+def parseLine (ws : List String) : Option Op :=
+  match ws with
+  | ["sty", id, name] => id.toNat?.map (fun id => .static id name)
+  | ["cpy", id, src] => (match id.toNat?, src.toNat? with | some id, some src => some (.copy id src) | _, _ => none)
+  | ["obs", t] => (parseTarget t).map .obs
+  | ["resize", t, n] => (match parseTarget t, n.toNat? with | some t, some n => some (.inplace (.resize n) t) | _, _ => none)
+  | ["concat", t, x] => (match parseTarget t, x.toNat? with | some t, some x => some (.inplace (.concat x) t) | _, _ => none)
+  | ["assign", t, x] => (match parseTarget t, x.toNat? with | some t, some x => some (.inplace (.assign x) t) | _, _ => none)
+  | ["push", t, x] => (match parseTarget t, x.toNat? with | some t, some x => some (.inplace (.push x) t) | _, _ => none)
+  | ["rem", t, x] => (match parseTarget t, x.toNat? with | some t, some x => some (.inplace (.rem x) t) | _, _ => none)
+  | ["pop", t] => (parseTarget t).map (.inplace .pop)
+  | ["push_at", t, x, i] =>
+    (match parseTarget t, x.toNat?, i.toInt? with | some t, some x, some i => some (.inplace (.pushAt x i) t) | _, _, _ => none)
+  | ["pop_at", t, i] => (match parseTarget t, i.toInt? with | some t, some i => some (.inplace (.popAt i) t) | _, _ => none)
+  | ["set", t, k, v] =>
+    (match parseTarget t, k.toNat?, v.toNat? with | some t, some k, some v => some (.inplace (.set k v) t) | _, _, _ => none)
+  | ["iter", id, d] =>
+    (match id.toNat? with
+     | some id => if d == "fwd" then some (.iter id false) else if d == "back" then some (.iter id true) else none
+     | none => none)
+  | ["values", id] => id.toNat?.map .values
+  | "view" :: rest => (parseView rest).map .view
+  | "sweep" :: ids => (allSome (ids.map String.toNat?)).map .sweep
+  | ["end"] => some .finish
+  | [f, t] => (match parseFreeOp f, parseTarget t with | some f, some t => some (.free f t) | _, _ => none)
+  | _ => parseOp ws
+
+def showItems (l : List (Option Seen)) : String :=
+  s!"items n={l.length} [" ++ ",".intercalate ((l.take 16).map showSeen) ++ "]"
+
+/-- known-finding witnesses: evaluated on the model, run by the harness in a forked child -/
+def kfLine (name : String) : String :=
+  if name == "delraw-embedded" then
+    -- new(Array, String, "ab"); del_raw(get(a, 0)): the destructor frees the buffer, then dealloc's message shows the object
+    let e := seqElem cfg St.init .array .string (.str "ab")
+    let (e1, out) := freeElem cfg .delRaw e
+    s!"kf delraw-embedded exc={showOutcome out} v={showScalar e1.val}"
+  else if name == "tree-odd-key" then
+    -- Tree_Alloc puts the value's header at 3*sizeof(var) + sizeof(Header) + size(ktype): misaligned for a 12-byte key type
+    let aligned := cfg.roundTree || (12 % 8 == 0)
+    s!"kf tree-odd-key exc={if aligned then "none" else "UB"}"
+  else if name == "del-silent" then
+    -- del($I(7)): not registered, GC_Rem_Ptr returns; nothing is raised
+    let e : Elem := { hdr := headerInit cfg .int cfg.bStack, cap := 8, val := .int 7 }
+    let (e1, out) := freeElem cfg .del e
+    s!"kf del-silent exc={showOutcome out} v={showScalar e1.val}"
+  else "bad-op"
+
+def main (args : List String) : IO Unit := do
+  let lines ← Driver.inputLines args
+  let mut s : St := St.init
+  let mut nOps := 0
+  let mut nRefused := 0
+  for l in lines do
+    if Driver.isSkippable l then continue
+    let ws := Driver.words l
+    match ws with
+    | ["kf", name] => IO.println ("O " ++ kfLine name)
+    | _ =>
+    match parseLine ws with
+    | none => IO.println "O bad-op"
+    | some op =>
+      nOps := nOps + 1
+      let (s1, obs) := step cfg s op
+      s := s1
+      match obs with
+      | .bad => IO.println "O bad-op"
+      | .skip why => IO.println s!"O skip {why}"
+      | .made id => IO.println s!"O mk {id} {describe s (.obj id)}"
+      | .seen t => IO.println s!"O obs {describe s t}"
+      | .did name out t =>
+        match out with
+        | .raised _ => nRefused := nRefused + 1
+        | _ => pure ()
+        IO.println s!"O {name} exc={showOutcome out} {describe s t}"
+      | .items l => IO.println ("O " ++ showItems l)
+      | .swept ids => IO.println ("O sweep freed=" ++ (if ids.isEmpty then "-" else ",".intercalate (ids.map toString)))
+      | .fin =>
+        let liveHeap := (s.objs.filter (fun p => p.2.live && p.2.hdr.alloc == cfg.cHeap)).length
+        IO.println s!"O end released={s.freed.length} live={liveHeap} registered={s.reg.length}"
+  IO.println s!"S ops={nOps} refused={nRefused} sound={cfg.Sound}"
